@@ -331,3 +331,21 @@ REFACTORS += [
     ("r-count-in-f64", "core/src/time_scale.rs", "(self.repeat.as_ordinal() as u64 + 1) as f32",
      "(self.repeat.as_ordinal() as f64 + 1.0) as f32", ["C03", "C07", "C02", "C20"]),
 ]
+
+# exact shortcuts in a lerp are harmless; inexact ones are not (round 6 of the seeded changes)
+_INT_LERP = "                let result_f32 = (*self as f32).lerp(&(*y1 as f32), x);"
+_F32_LERP = "        self * (1.0 - x) + y1 * x\n    }\n}\n\nimpl Lerp for f64 {"
+REFACTORS += [
+    ("r-lerp-exact-shortcuts", "core/src/interpolation.rs", _INT_LERP,
+     "                if x == 0.0 {\n                    return *self;\n                }\n                if x == 1.0 {\n                    return *y1;\n                }\n" + _INT_LERP,
+     ["C14", "C02", "C04", "C17", "C01", "C20"]),
+    ("r-lerp-same-shortcut", "core/src/interpolation.rs", _F32_LERP,
+     "        if self == y1 {\n            return *self;\n        }\n" + _F32_LERP, ["C14", "C02", "C04", "C17", "C01", "C20"]),
+]
+MUTANTS += [
+    ("lerp-clamped-shortcuts", "core/src/interpolation.rs", _INT_LERP,
+     "                if x <= 0.0 {\n                    return *self;\n                }\n                if x >= 1.0 {\n                    return *y1;\n                }\n" + _INT_LERP,
+     ["C14", "C17"], "lerp-shape"),
+    ("lerp-tolerance-shortcut", "core/src/interpolation.rs", _F32_LERP,
+     "        if (y1 - self).abs() < f32::EPSILON {\n            return *self;\n        }\n" + _F32_LERP, ["C14", "C17"], "lerp-shape"),
+]
